@@ -221,6 +221,8 @@ class ProgGen(object):
             choices += ["arith"] * 4
         if t == BOOL:
             choices += ["cmp"] * 3 + ["logic"] * 2
+        if "where" in self.feat and isinstance(t, str) and t != UNIT and d > 1 and self.in_fun and not self.in_macro:
+            choices += ["where"] * 2          # opt-in feature: e where { x: T == v }
         if "strop" in self.feat and "str" in self.feat:     # opt-in feature: concat, #, = on strings
             if t == STR:
                 choices += ["strcat"] * 3
@@ -331,6 +333,20 @@ class ProgGen(object):
                 return prim("bool." + r.choice(["eq", "ne"]), self.expr(BOOL, scope, d - 1), self.expr(BOOL, scope, d - 1))
             p = "si" if at == SI else "bi"
             return prim(p + "." + r.choice(["lt", "le", "gt", "ge", "eq", "ne"]), self.expr(at, scope, d - 1), self.expr(at, scope, d - 1))
+        if c == "where":
+            sc = Scope(scope)
+            defs = []
+            for _ in range(r.randint(1, 2)):
+                dt = r.choice([SI, SI, BOOL] + ([BI] if "bi" in self.feat else []))
+                x = self.fresh("k")
+                defs.append({"x": x, "t": dt, "v": self.expr(dt, scope, d - 1)})
+            for dd in defs:
+                sc.vars[dd["x"]] = (dd["t"], False)
+            body = self.expr(t, sc, d - 1)
+            same = [dd for dd in defs if dd["t"] == t and t in (SI, BI)]
+            if same:                         # make a constant count
+                body = prim(("si" if t == SI else "bi") + ".add", var(same[0]["x"]), body)
+            return {"e": "where", "t": t, "defs": defs, "body": body}
         if c == "strcat":
             return prim("str.cat", self.expr(STR, scope, d - 1), self.expr(STR, scope, d - 1))
         if c == "strlen":
@@ -1234,7 +1250,7 @@ def generate(seed, n, features=None, emph=(), extras=True):
     for i in range(n):
         g = ProgGen(seed * 100003 + i, features=features, emph=emph)
         if extras and features is None and i % 3 == 2:
-            g.feat |= {"tup", "coll", "filt", "adt", "kwd", "strop"}
+            g.feat |= {"tup", "coll", "filt", "adt", "kwd", "strop", "where"}
             if "try" in g.feat and i % 2:
                 g.enable_payload()
         out.append(g.program("g%d_%d" % (seed, i)))
